@@ -78,6 +78,18 @@ Proof.
     fold (map_eval (eval c (S fuel) esc)). rewrite (IH vr eq_refl). reflexivity.
 Qed.
 
+Lemma const_pairs_eval c fuel esc pairs kvs :
+  const_pairs pairs = Some kvs ->
+  forall s, map_eval_pairs (eval c (S fuel) esc) s pairs = Ok (kvs, s).
+Proof.
+  revert kvs. induction pairs as [|[k x] r IH]; intros kvs H s.
+  - inversion H. reflexivity.
+  - cbn [const_pairs] in H. destruct k; try discriminate. destruct x; try discriminate.
+    destruct (const_pairs r) as [vr|] eqn:E; cbn [omap] in H; try discriminate. inversion H; subst.
+    cbn [map_eval_pairs]. rewrite !eval_const. cbn [bind]. rewrite eval_const. cbn [bind].
+    fold (map_eval_pairs (eval c (S fuel) esc)). rewrite (IH vr eq_refl). reflexivity.
+Qed.
+
 Section Agree.
 Variable c : cfg.
 Variable esc : bool.
@@ -130,6 +142,12 @@ Proof.
     destruct fuel as [|fuel'].
     + destruct items as [|x r]; [inversion E; reflexivity|]. cbn [maxmap] in Hd. pose proof (depth_pos x). lia.
     + cbn [eval]. rewrite (const_values_eval c fuel' esc items vs E). reflexivity.
+  - (* EMap *)
+    destruct (const_pairs pairs) as [kvs|] eqn:E; cbn [omap] in H; try discriminate. inversion H; subst.
+    split; [reflexivity|]. intros s.
+    destruct fuel as [|fuel'].
+    + destruct pairs as [|[k x] r]; [inversion E; reflexivity|]. cbn [maxmap fst snd] in Hd. pose proof (depth_pos k). lia.
+    + cbn [eval]. rewrite (const_pairs_eval c fuel' esc pairs kvs E). reflexivity.
   - (* ENeg *)
     destruct (as_const e) as [x|] eqn:E; cbn [obind] in H; try discriminate.
     apply ok_of_some in H. destruct (IHs e ltac:(lia) x E) as [Hx Hev].
@@ -332,6 +350,31 @@ Proof.
     + intros vs u1 u2 A1 A2. cbn beta iota. apply res_rel_ok; assumption.
 Qed.
 
+Lemma map_eval_pairs_rel ev pairs :
+  (forall x, hoist_ok ev x) -> forallb (fun p => callsafe ok (fst p) && callsafe ok (snd p)) pairs = true ->
+  forall s1 s2, same s1 s2 -> bound c s1 sigma -> no_macros s1 ->
+  res_rel s1 s2 (map_eval_pairs ev s1 pairs) (map_eval_pairs ev s2 (map (fun p => (subst sigma (fst p), subst sigma (snd p))) pairs)).
+Proof.
+  intros Hev. induction pairs as [|[k x] r IH]; intros Hp s1 s2 Hs Hb Hn.
+  - cbn. auto using same_refl.
+  - cbn [forallb fst snd] in Hp. apply andb_prop in Hp as [Hpkx Hpr]. apply andb_prop in Hpkx as [Hpk Hpx].
+    cbn [map map_eval_pairs fst snd].
+    apply bind_rel; [apply Hev; auto|].
+    intros kv t1 t2 H1 H2. cbn beta iota.
+    apply bind_rel.
+    { eapply res_rel_weaken; eauto. apply Hev; auto.
+      - exact (same_step _ _ _ _ Hs H1 H2).
+      - eapply bound_same; eauto.
+      - eapply no_macros_same; eauto. }
+    intros xv u1 u2 A1 A2. cbn beta iota.
+    apply bind_rel.
+    + eapply res_rel_weaken; eauto. apply IH; auto.
+      * exact (same_step _ _ _ _ Hs A1 A2).
+      * eapply bound_same; eauto.
+      * eapply no_macros_same; eauto.
+    + intros vs w1 w2 B1 B2. cbn beta iota. apply res_rel_ok; assumption.
+Qed.
+
 Lemma cmp_chain_rel ev rest :
   (forall p, In p rest -> hoist_ok ev (snd p)) -> forallb (fun p => callsafe ok (snd p)) rest = true ->
   forall left s1 s2, same s1 s2 -> bound c s1 sigma -> no_macros s1 ->
@@ -385,6 +428,9 @@ Proof.
   - (* EList *)
     cbn [eval]. apply bind_rel; [apply IHl; auto using same_refl|].
     intros vs t1 t2 H1 H2. cbn beta iota. apply res_rel_ok; assumption.
+  - (* EMap *)
+    cbn [eval]. apply bind_rel; [apply map_eval_pairs_rel; auto|].
+    intros vs t1 t2 H1 H2. cbn beta iota. apply res_rel_ok; assumption.
   - (* ENeg *)
     cbn [eval]. apply bind_rel; [apply IHk; auto using same_refl|].
     intros v t1 t2 H1 H2. cbn beta iota. destruct v; try apply res_rel_err. apply res_rel_ok; assumption.
@@ -423,13 +469,13 @@ Proof.
     cbn [eval]. apply bind_rel; [apply IHk; auto using same_refl|].
     intros x t1 t2 H1 H2. cbn beta iota. apply bind_rel; [apply IHk; auto|].
     intros k u1 u2 A1 A2. cbn beta iota.
-    destruct (match x, k with VList l, VInt z => idx_list l z | _, _ => None end).
+    destruct (get_item_opt x k).
     + apply res_rel_ok; assumption.
     + apply bind_pure_rel. intros v. apply res_rel_ok; assumption.
   - (* EAttr *)
     cbn [eval]. apply bind_rel; [apply IHk; auto using same_refl|].
     intros x t1 t2 H1 H2. cbn beta iota.
-    destruct (match x with VLoop i n => loop_attr i n a | _ => None end).
+    destruct (get_attr_opt x a).
     + apply res_rel_ok; assumption.
     + apply bind_pure_rel. intros v. apply res_rel_ok; assumption.
   - (* EFilter *)
@@ -458,7 +504,7 @@ Proof.
     assert (W1 : same s1 w1) by (eapply same_trans; eauto).
     assert (W2 : same s2 w2) by (eapply same_trans; eauto).
     destruct fv1 as [fv|]; [|apply res_rel_err].
-    destruct fv as [ | | |bb|zz|sf ss|ll|mc cl|li ln|g]; try apply res_rel_err.
+    destruct fv as [ | | |bb|zz|sf ss|ll|mm|mc cl|li ln|g]; try apply res_rel_err.
     + (* a macro: excluded *)
       exfalso. destruct A1 as (E1 & E2 & _). apply (Hn f Hp1 mc cl). rewrite E1, E2. symmetry. exact Hf1.
     + destruct (g =? N_range); [|apply res_rel_err].
@@ -503,6 +549,9 @@ Proof.
   destruct e; cbn [subst depth] in *; try reflexivity.
   - destruct (sigma x); reflexivity.
   - rewrite IHl by lia. reflexivity.
+  - f_equal. apply maxmap_map_ext. intros [k x] Hx. cbn [fst snd].
+    pose proof (maxmap_in (fun p => Nat.max (depth (fst p)) (depth (snd p))) pairs (k, x) Hx) as Hm. cbn [fst snd] in Hm.
+    rewrite (IH k), (IH x) by lia. reflexivity.
   - rewrite IH by lia. reflexivity.
   - rewrite IH by lia. reflexivity.
   - rewrite (IH e1), (IH e2) by lia. reflexivity.
@@ -590,6 +639,19 @@ Proof.
   rewrite IH; [reflexivity|]. intros y Hy. apply H. right. exact Hy.
 Qed.
 
+Lemma map_eval_pairs_ext (ev : st -> expr -> outcome (value * st)) (f : expr -> expr) pairs :
+  (forall p, In p pairs -> forall s, ev s (f (fst p)) = ev s (fst p) /\ ev s (f (snd p)) = ev s (snd p)) ->
+  forall s, map_eval_pairs ev s (map (fun p => (f (fst p), f (snd p))) pairs) = map_eval_pairs ev s pairs.
+Proof.
+  induction pairs as [|[k x] r IH]; intros H s; [reflexivity|].
+  cbn [map map_eval_pairs fst snd].
+  pose proof (fun s0 => proj1 (H (k, x) (or_introl eq_refl) s0)) as Hk.
+  pose proof (fun s0 => proj2 (H (k, x) (or_introl eq_refl) s0)) as Hx. cbn [fst snd] in Hk, Hx.
+  rewrite Hk. apply bind_ext. intros [kv s1].
+  rewrite Hx. apply bind_ext. intros [xv s2].
+  rewrite IH; [reflexivity|]. intros y Hy. apply H. right. exact Hy.
+Qed.
+
 Lemma cmp_chain_ext m (ev : st -> expr -> outcome (value * st)) (f : expr -> expr) rest :
   (forall p, In p rest -> forall s, ev s (f (snd p)) = ev s (snd p)) ->
   forall left s, cmp_chain m ev left s (map (fun p => (fst p, f (snd p))) rest) = cmp_chain m ev left s rest.
@@ -659,11 +721,12 @@ Proof.
   (* a non-empty list value: the expression has depth at least 2 *)
   assert (2 <= depth e)%nat; [|lia].
   unfold as_const in He.
-  destruct e as [lt|x|items|a|a|op a b|a rest|a b|a b|cnd a b|a b|a x|n a args|n a args ng|n args kw];
+  destruct e as [lt|x|items|pairs|a|a|op a b|a rest|a b|a b|cnd a b|a b|a x|n a args|n a args ng|n args kw];
     cbn [as_const_gen] in He; try discriminate; cbn [depth];
     try (pose proof (depth_pos a); lia).
   - destruct lt; discriminate.
   - destruct items as [|x r]; [cbn in He; discriminate|]. cbn [maxmap]. pose proof (depth_pos x). lia.
+  - destruct (const_pairs pairs); discriminate.
 Qed.
 
 Lemma fold_sub_unfold e :
@@ -692,6 +755,9 @@ Proof.
   { intros l Hl. apply map_eval_ext. intros x Hx. apply IH. pose proof (maxmap_in depth l x Hx). lia. }
   destruct e; cbn [descend]; cbn [depth] in Hd; try reflexivity.
   - (* EList *) cbn [eval]. rewrite IHl by lia. reflexivity.
+  - (* EMap *) cbn [eval]. rewrite map_eval_pairs_ext; [reflexivity|]. intros [k x] Hp s0. cbn [fst snd].
+    pose proof (maxmap_in (fun p => Nat.max (depth (fst p)) (depth (snd p))) pairs (k, x) Hp) as Hm. cbn [fst snd] in Hm.
+    split; apply IH; lia.
   - (* ENeg *) cbn [eval]. rewrite IH by lia. reflexivity.
   - (* ENot *) cbn [eval]. rewrite IH by lia. reflexivity.
   - (* EBin *) cbn [eval]. rewrite (IH e1) by lia. apply bind_ext. intros [x s1]. rewrite (IH e2) by lia. reflexivity.
@@ -742,6 +808,15 @@ Proof.
   - left. apply const_values_eval. exact H.
 Qed.
 
+Lemma const_pairs_eval_any c esc pairs kvs :
+  const_pairs pairs = Some kvs ->
+  forall fuel s, ok_or_gas (map_eval_pairs (eval c fuel esc) s pairs) (kvs, s).
+Proof.
+  intros H fuel s. destruct fuel as [|fuel].
+  - destruct pairs as [|[k x] r]; [inversion H; left; reflexivity|]. right. reflexivity.
+  - left. apply const_pairs_eval. exact H.
+Qed.
+
 Section AgreeAny.
 Variable c : cfg.
 Variable esc : bool.
@@ -781,6 +856,9 @@ Proof.
   - (* EList *)
     destruct (const_values items) as [vs|] eqn:E; cbn [omap] in H; try discriminate. inversion H; subst.
     cbn [eval]. destruct (const_values_eval_any c esc items vs E fuel s) as [Hm|Hm]; rewrite Hm; [left|right]; reflexivity.
+  - (* EMap *)
+    destruct (const_pairs pairs) as [kvs|] eqn:E; cbn [omap] in H; try discriminate. inversion H; subst.
+    cbn [eval]. destruct (const_pairs_eval_any c esc pairs kvs E fuel s) as [Hm|Hm]; rewrite Hm; [left|right]; reflexivity.
   - (* ENeg *)
     destruct (as_const e) as [x|] eqn:E; cbn [obind] in H; try discriminate. apply ok_of_some in H.
     cbn [eval]. destruct (IH e x E s) as [Hev|Hev]; rewrite Hev; [|right; reflexivity]. cbn [bind].
